@@ -226,12 +226,13 @@ NOT_APPLICABLE = {
 
 # clauses added after the first version of each check (red-team misses, defects found); appended to the texts above
 ADDENDA = {
+    "C16": " Also: has_signature is an equality of the whole signature (no is_some / len / prefix comparisons of a component).",
     "C28": " Also: exactly JUMP, JUMP-WHEN, JUMP-UNLESS and HALT (and LABEL, which starts the next one) close a block.",
     "C22": " Also: the BlockStart edge of a classical instruction is decided by whether a memory edge was actually drawn into it (flag cleared under the self-edge guard, or computed from that comparison).",
     "C02": " Also: a present optional field is printed whatever it contains (no Some-discarding adaptor, emission controlled only by the Option being Some); a writer that separates elements with commas has a parser accepting COMMA.",
     "C03": " Also: whole real parts written as bare digit strings (trim_floats below 10^break) fit the lexer's integer token width; the Prefix arm never prints its operand bare and the Infix arm prints both operands through the grouping printer; the identifier parser tries `name[index]` before the keyword table while MemoryReference always prints its brackets.",
     "C04": " Also: the literal rule shared with C02; positions printed with format_complex need a parser that accepts a sign and a sum (CALL immediates: sign repaired, two-part values a known finding); an expression printed directly after a qubit list is grouped by the writer for every expression kind whose text starts with a token the qubit parser accepts (DELAY, repaired twice); a to_quil()/to_quil_or_debug() call on a value of generic type inside a flag-taking helper counts as one on a placeholder-carrying value.",
-    "C05": " Also: a literal is negated only under a test of the sign token being Operator::Minus; the float Eq/Hash helpers used for interning Expression numbers are exact (no ordering comparison, arithmetic or tolerance).",
+    "C05": " Also: a literal is negated only under a test of the sign token being Operator::Minus; the float Eq/Hash helpers used for interning Expression numbers are exact (no ordering comparison, arithmetic or tolerance). Also: after the digits of an integer, '.', 'e' and 'E' all continue the literal as a real number.",
     "C06": " Also: taking a name apart (split/strip/truncate family) before storing it counts as normalisation (one named exception: Pauli words decoded into PauliGate values). Also: nothing on the parse paths builds a char from a single byte or code unit.",
     "C07": " Also: no writer re-processes the serialized text of a nested value (split/lines/replace/trim): repaired for DEFCIRCUIT bodies. Also: no lexer or quoting function builds a char from a single byte.",
     "C08": " Also: in every function that builds, merges, filters or rebuilds a Program store, no order-scrambling call (swap_remove, sort, reverse, ...) is applied to an insertion-ordered container and no insertion-ordered container is filled from an iteration over a hash-ordered one.",
@@ -239,10 +240,10 @@ ADDENDA = {
     "C10": " Also: the rebuild covers each qubit-bearing sub-store (gate and measure calibrations separately), also when the cache is filled through a local collection; replacing a qubit-bearing definition triggers a rebuild (repaired). Also: content merged from another Program must be matched by a rebuild, a union with that program's cache, or add_instruction(s) fed from the same store; a Program literal that takes over another value's cache takes every qubit-bearing store from that value too or rebuilds; a hand-written rebuild reads every Qubit-holding field of each definition type it walks.",
     "C11": " Also: every field merge of the nested merge helpers happens on every path (no fast path decided from part of the other operand).",
     "C12": " Guard helpers are inlined and let-else / if-chain bindings are modelled, so the affine rule is decided too; no undecided instance is left.",
-    "C13": " Also: substitute_variables returns a node of the same kind for Infix/Prefix/FunctionCall on every path; every value evaluate computes from evaluated children goes through calculate_infix / calculate_function / negation.",
+    "C13": " Also: substitute_variables returns a node of the same kind for Infix/Prefix/FunctionCall on every path; every value evaluate computes from evaluated children goes through calculate_infix / calculate_function / negation. Also: substitution returns every leaf other than a Variable unchanged; the memory-reference listing defers a child unconditionally.",
     "C14": " Also (shape rules, not part of the proof of the tables): every permutation step in two_swap_helper / permutation_arbitrary multiplies the new factor on the left of the accumulator in every branch; the gate's parameter reaches its matrix function unchanged.",
     "C17": " Also: the parameter substitution in the closure handed to apply_to_expressions is unconditional; both public entry points return what expand_calibrations_inner built on every path. Also: the expansion output reaches the program only through add_instruction(s) (hoisting of DECLARE with and without a source map).",
-    "C18": " Also: at every call in the expansion cycle and its public wrappers the callee's error is propagated (`?`, returned as is, or an Err arm that returns).",
+    "C18": " Also: at every call in the expansion cycle and its public wrappers the callee's error is propagated (`?`, returned as is, or an Err arm that returns). Also: substitute_variables recurses only on sub-expressions of the node it was given (never on a value from the substitution map).",
     "C23": " Also: every (region, access kind) of every instruction reaches the per-region queue (element-preserving adaptors only, unconditional record call). Also: the pending write is assigned or mutably borrowed only inside the Write arm (a read never clears it).",
     "C24": " Also: the per-frame queues are keyed by a type holding the full FrameIdentifier (no order-forgetting set of qubits).",
     "C25": " Also: TimeSpan::union decided path by path (start = min of starts, end = max of ends, justified by the path's comparisons); the calibrated index map and span merge of BasicBlock::as_schedule. Also: the set of scheduled instruction kinds is read from the MIR of DefaultHandler::is_scheduled whatever its shape, and compared kind by kind with the duration table.",
